@@ -435,6 +435,10 @@ package memberlist
 //@   safety [C13]
 //@   requires ok: mlNet(m) && conn != nil
 //@   at call (*Memberlist).readRemoteState: assert cap-concurrent [C13]: $numConcurrent < maxPushPullRequests
+//@   at call (*Memberlist).sendLocalState: assert reply-only-if-merging [C09,C13]: $numConcurrent < maxPushPullRequests
+//@   at call (*Memberlist).readRemoteState: set $rrsErr := res3
+//@   at call (*Memberlist).sendLocalState: set $slsErr := res
+//@   at call (*Memberlist).mergeRemoteState: assert merge-after-exchange [C09,C13]: $rrsErr == 0 && $slsErr == 0
 //@   at call (*sync/atomic.Uint32).Add #1: set $numConcurrent := res
 //@   ensures balanced [C13]: m.pushPullReq == old(m.pushPullReq)
 
@@ -463,10 +467,27 @@ package memberlist
 //@   requires ok: mlNet(m) && bufConn != nil && dec != nil
 //@   at make header.UserMsgLen: assert cap-msg [C13]: 0 < n && n <= maxUserMsgBytes
 
+//@ ghost $verifyRes int
+//@ ghost $mergeRes int
+//@ ghost $merged int       // number of mergeState calls (C09 all-or-nothing)
+//@ ghost $rrsErr int
+//@ ghost $slsErr int
+//@ ghost $sarErr int
+//@ iface MergeDelegate.NotifyMerge(peers)
+//@   assigns $mergeRes
+//@   ensures res: $mergeRes == result
+
+// mergeRemoteState: verifyProtocol first; the merge delegate can veto a join; nothing is merged on any failure
 //@ func (*Memberlist).mergeRemoteState(m, join, remoteNodes, userBuf)
 //@   safety [C13,C09]
 //@   modular
 //@   requires ok: mlNet(m)
+//@   at call (*Memberlist).verifyProtocol: set $verifyRes := res
+//@   at call (*Memberlist).mergeState: assert gate [C09]: $verifyRes == 0 && (join && m.config.Merge != nil ==> $mergeRes == 0)
+//@   at call (*Memberlist).mergeState: set $merged := $merged + 1
+//@   at call Delegate.MergeRemoteState: assert after-merge [C09]: $merged == old($merged) + 1 && !isnil(userBuf)
+//@   ensures all-or-nothing [C09]: result != nil ==> $merged == old($merged)
+//@   ensures merged-once [C09]: result == nil ==> $merged == old($merged) + 1
 
 //@ func (*Memberlist).sendLocalState(m, conn, join, streamLabel)
 //@   safety [C13,C20]
@@ -480,12 +501,28 @@ package memberlist
 //@   requires nn: conn != nil
 //@   ensures nn: result2 == nil ==> result0 != nil
 
+// push/pull dispatch (C09 "hearsay never kills", C01): a remote entry becomes exactly the claim its state stands for
 //@ func (*Memberlist).mergeState(m, remote)
 //@   safety [C13,C09]
 //@   modular
 //@   requires ok: mlNet(m)
+//@   at call (*Memberlist).aliveNode: assert disp-alive [C01,C09]: r.State == StateAlive && a.Incarnation == r.Incarnation && a.Node == r.Name && a.Addr == r.Addr && a.Port == r.Port && a.Meta == r.Meta && a.Vsn == r.Vsn && notify == nil && !bootstrap
+//@   at call (*Memberlist).deadNode: assert disp-left [C08,C09]: r.State == StateLeft && d.Incarnation == r.Incarnation && d.Node == r.Name && d.From == r.Name
+//@   at call (*Memberlist).suspectNode: assert disp-hearsay [C09]: (r.State == StateDead || r.State == StateSuspect) && s.Incarnation == r.Incarnation && s.Node == r.Name && s.From == m.config.Name
 
 //@ func (*Memberlist).verifyProtocol(m, remote)
 //@   safety [C13,C09]
+//@   modular
+//@   requires ok: mlNet(m)
+
+//@ func (*Memberlist).pushPullNode(m, a, join)
+//@   safety [C09,C20]
+//@   modular
+//@   requires ok: mlNet(m)
+//@   at call (*Memberlist).sendAndReceiveState: set $sarErr := res2
+//@   at call (*Memberlist).mergeRemoteState: assert only-after-full-read [C09]: $sarErr == 0
+
+//@ func (*Memberlist).sendAndReceiveState(m, a, join)
+//@   safety [C09,C20]
 //@   modular
 //@   requires ok: mlNet(m)
